@@ -73,7 +73,10 @@ def describe_exc(et, ev, tb):
     netloc = et is ValueError and last is not None and last[0] in ('parse', 'ipaddress')
     # an exception born inside the server's reader object (wsgi.input of cheroot: malformed chunked framing, size limit)
     rfile = last_file is not None and (os.sep + 'cheroot' + os.sep) in last_file
-    return {'module': mod, 'function': func, 'exc': et.__name__, 'netloc': netloc, 'rfile': rfile,
+    # text with a lone surrogate (decoded from an RFC 2047 word in utf-7 / unicode_escape) that something - error page,
+    # response header, access log - tries to encode again
+    surrogate = issubclass(et, UnicodeEncodeError) and getattr(ev, 'reason', '') == 'surrogates not allowed'
+    return {'module': mod, 'function': func, 'exc': et.__name__, 'netloc': netloc, 'rfile': rfile, 'surrogate': surrogate,
             'mro': [c.__name__ for c in et.__mro__ if c not in (object, BaseException)],
             'msg': str(ev)[:160]}
 
@@ -318,7 +321,8 @@ def _careful(v, url=False):
     if not isinstance(v, str) or not v:
         return None
     bad = set('/?#[]@:\\ "<>%') if url else set()
-    v = ''.join(c for c in v if ord(c) >= 32 and ord(c) != 127 and c not in bad)[:200]
+    # (no control characters, no lone surrogates: text that can be written down again)
+    v = ''.join(c for c in v if ord(c) >= 32 and ord(c) != 127 and not 0xD800 <= ord(c) <= 0xDFFF and c not in bad)[:200]
     return v or None
 
 
@@ -794,6 +798,9 @@ def signature(obs):
     if not e:
         return 'unknown:unknown:status%s' % obs.get('status')
     sig = '%s:%s:%s' % (e['module'], e['function'], e['exc'])
+    if e.get('surrogate'):
+        # wherever the text was being encoded: the defect is that it got in (K12)
+        return 'surrogate:%s' % e['exc']
     if e.get('rfile'):
         # whichever SizedReader method was reading: the exception is the server reader's (K7)
         return 'rfile:cheroot:%s' % e['exc']
